@@ -155,7 +155,7 @@ pub fn kf_unknown_total_size<S: Src>(s: &mut S) {
 
 fn draw_item<S: Src>(s: &mut S) -> ItemCfg<300> {
     let type_ = s.u8();
-    let value = Text::<300>::draw_len_utf8(s, 300);
+    let value = Text::<300>::draw_len(s, 300);
     let prefix = Blob::<300>::draw_len(s, 300);
     ItemCfg { type_, value, prefix }
 }
@@ -211,7 +211,9 @@ pub fn sdes<S: Src, const NC: usize, const NI: usize>(s: &mut S) {
 
 /// Limits of one item, approached from both sides through the public item writer.
 pub fn sdes_item<S: Src>(s: &mut S) {
-    let it = draw_item(s);
+    let mut it = draw_item(s);
+    // multi-byte characters: byte length and character count differ
+    it.value = Text::<300>::draw_len_utf8(s, 300);
     let mut buf = [0u8; 600];
     let r = it.builder().write_into(&mut buf);
     vcover!(r.is_ok() && it.is_priv() && it.prefix.len + it.value.len == 254, "PRIV 254 accepted");
